@@ -456,6 +456,12 @@ class Ctx:
         "?\tctgC:11-90\tscfA\tPLUS\n"
         "GAP\tREPEAT\t7\n"
         "?\tctgD:1-40\tscfA\tPLUS\n"
+        "GAP\tSHORT_ARM\t3\n"
+        "?\tctgD2:1-40\tscfA\tPLUS\n"
+        "GAP\tcentromere\t4\n"
+        "?\tctgD3:1-40\tscfA\tPLUS\n"
+        "GAP\tshort-arm\t6\n"
+        "?\tctgD4:1-40\tscfA\tPLUS\n"
         "GAP\tTYPE-2\t100\n"
         "?\tctgE:1-40\tscfB\tPLUS\n"
         "?\tctgF:1-40\tscfB\tPLUS\n"
@@ -474,6 +480,34 @@ class Ctx:
         "scfB\t6\t45\t2\tW\tctgE\t1\t40\t+\n"
         "scfB\t46\t46\t3\tU\t1\tScaffold\tyes\tproximity_ligation\n"
         "scfB\t47\t86\t4\tW\tctgF\t1\t40\t+\n"
+        # component type N (gap of known length) with the canonical spelling, for
+        # the gap lengths other inputs use; rows that repeat a tag
+        "scfC\t1\t40\t1\tW\tctgG\t1\t40\t+\tPainted\tX\tHaplotig\tPainted\n"
+        "scfC\t41\t240\t2\tN\t200\tscaffold\tyes\tproximity_ligation\n"
+        "scfC\t241\t280\t3\tW\tctgH\t1\t40\t-\tHap1\tUnloc\tZ\tHap1\tUnloc\n"
+        "scfC\t281\t380\t4\tN\t100\tscaffold\tyes\tproximity_ligation\n"
+        "scfC\t381\t420\t5\tW\tctgI\t1\t40\t+\n"
+        "scfC\t421\t430\t6\tN\t10\tscaffold\tyes\tproximity_ligation\n"
+        "scfC\t431\t470\t7\tW\tctgJ\t1\t40\t+\n"
+        "scfC\t471\t475\t8\tN\t5\tscaffold\tyes\tproximity_ligation\n"
+        "scfC\t476\t515\t9\tW\tctgK\t1\t40\t+\n"
+        "scfC\t516\t516\t10\tN\t1\tscaffold\tyes\tproximity_ligation\n"
+        "scfC\t517\t556\t11\tW\tctgL\t1\t40\t+\n"
+    )
+
+    # the same gap types as ODD_TPF / ODD_AGP, spelt the canonical way
+    ODD2_TPF = (
+        "?\tctgM:1-500\tscfM\tPLUS\n"
+        "GAP\tSHORT-ARM\t12\n"
+        "?\tctgN:1-300\tscfM\tMINUS\n"
+        "GAP\tCENTROMERE\t10\n"
+        "?\tctgO:11-90\tscfM\tPLUS\n"
+        "GAP\tTYPE-3\t7\n"
+        "?\tctgP:1-40\tscfM\tPLUS\n"
+        "GAP\tTYPE-2\t200\n"
+        "?\tctgQ:1-40\tscfM\tPLUS\n"
+        "GAP\tREPEAT\t9\n"
+        "?\tctgR:1-40\tscfM\tPLUS\n"
     )
 
     def run_odd_asmformat(self, fmt):
@@ -572,6 +606,36 @@ class Ctx:
         oc.outd, oc.ind = outd, d
         return oc
 
+    def after_odd_inputs(self, fmt):
+        """One process formats the oddly spelt files and then a canonically spelt
+        one; a fresh interpreter formats only the latter: same output."""
+        d = os.path.join(self.root, "in_odd")
+        os.makedirs(d, exist_ok=True)
+        for name, text in (("odd.tpf", self.ODD_TPF), ("odd.agp", self.ODD_AGP), ("odd2.tpf", self.ODD2_TPF)):
+            pth = os.path.join(d, name)
+            if not os.path.exists(pth):
+                Path(pth).write_text(text)
+                self.world.stamp_path(pth)
+        box = {}
+
+        def seq():
+            self.nested = True
+            try:
+                for name in ("odd.tpf", "odd.agp"):
+                    o = self.new_out()
+                    self.run_inproc(self.af.cli, [os.path.join(d, name), "-o", os.path.join(o, "o." + fmt)], "asm-format", end=False)
+                outd = self.new_out()
+                r, _t = self.run_inproc(self.af.cli, [os.path.join(d, "odd2.tpf"), "-o", os.path.join(outd, "z." + fmt)], "asm-format", end=False)
+                box["oc"] = Outcome(r.code, self.collect(outd, d), r.stderr)
+            finally:
+                self.nested = False
+
+        self.world.run_solo(seq, name="asm-format-sequence")
+        outd = self.new_out()
+        p = self.run_subprocess("asm_format", [os.path.join(d, "odd2.tpf"), "-o", os.path.join(outd, "z." + fmt)], self.case["seeds"][-1])
+        alone = Outcome(p.returncode, self.collect(outd, d), p.stderr)
+        return self.compare("asm_format", alone, box["oc"], f"asm-format of a canonically spelt TPF -> {fmt} after two oddly spelt inputs in the same process vs alone in a fresh interpreter")
+
     def run_asmformat_multi(self, fmt, subprocess_seed=None):
         """asm-format with several input files: one output holding all of them, in argument order."""
         srcs = []
@@ -584,7 +648,11 @@ class Ctx:
             os.makedirs(d)
             Path(os.path.join(d, "odd.tpf")).write_text(self.ODD_TPF)
             self.world.stamp_path(os.path.join(d, "odd.tpf"))
+        if not os.path.exists(os.path.join(d, "odd.agp")):
+            Path(os.path.join(d, "odd.agp")).write_text(self.ODD_AGP)
+            self.world.stamp_path(os.path.join(d, "odd.agp"))
         srcs.append(os.path.join(d, "odd.tpf"))
+        srcs.append(os.path.join(d, "odd.agp"))
         srcs.append(srcs[0])  # the same file twice is legal too
         outd = self.new_out()
         args = [*srcs, "-o", os.path.join(outd, f"all.{fmt}")]
@@ -604,6 +672,8 @@ class Ctx:
             got = self.run_asmformat_multi(fmt, subprocess_seed=seed)
             if not self.compare("asm_format", base, got, f"asm-format of four input files -> one {fmt}: in-process vs fresh interpreter PYTHONHASHSEED={seed}"):
                 return
+        if not self.after_odd_inputs(fmt):
+            return
         for fmt in ("tpf", "agp", "STR", "REPR", "stdout"):
             a = self.run_asmformat("w1", fmt)
             b = self.run_asmformat("w1", fmt, subprocess_seed=self.case["seeds"][-1])
